@@ -256,7 +256,9 @@ func checkRebuildSteps(c *Ctx, r *Rec, info *types.Info, lst *types.Named, norm 
 			if posStyle[k] == "B" {
 				wantStart = 1
 			}
-			if start == nil || !start.isConst() || start.K != wantStart {
+			if start != nil && !start.isConst() {
+				undec = append(undec, fmt.Sprintf("the position variable %s starts at %v, where an earlier loop stopped: another formulation, the first slot is not checked", strings.SplitN(k, "@", 2)[0], start))
+			} else if start == nil || !start.isConst() || start.K != wantStart {
 				viol = append(viol, fmt.Sprintf("the position variable %s starts at %v, but its loop writes %s: the first element lands at the wrong ordinal", strings.SplitN(k, "@", 2)[0], start, map[string]string{"A": "after incrementing (it must start at 0)", "B": "before incrementing (it must start at 1)"}[posStyle[k]]))
 			}
 		}
@@ -510,6 +512,15 @@ func (rc *rebuildCtx) analyseLoop(outer *symState, loop ast.Stmt, method string,
 						if start != nil && start.isConst() && start.K == 0 {
 							for _, ov := range outer.vars {
 								if ov.Lin != nil && isZSym(ov.Lin) && entailsCube(full, eq(post, ov.Lin)) {
+									okGuard = true
+								}
+							}
+						}
+						// an ordinal counter: it starts at 1 and is stepped behind the test, so the element
+						// that is looked at has the ordinal the counter shows
+						if start != nil && start.isConst() && start.K == 1 {
+							for _, ov := range outer.vars {
+								if ov.Lin != nil && isZSym(ov.Lin) && entailsCube(full, eq(post.plus(-1), ov.Lin)) {
 									okGuard = true
 								}
 							}
